@@ -100,8 +100,8 @@ def main():
         mp = os.path.join(dst, "meta.json")
         if os.path.exists(mp):
             old = json.load(open(mp))
-            for k in ("stock_tests_with_patch",):
-                if meta.get(k) is None:
+            for k in ("stock_tests_with_patch", "needs_to_manifest"):
+                if not meta.get(k):
                     meta[k] = old.get(k)
             oc = old.get("checks") or {}
             oc.update(meta["checks"] or {})
